@@ -392,11 +392,20 @@ def main(ctx, args):
                 corpus.append({"origin": "corpus/vi-two-keys", "vi": True, "cps": [ord(c) for c in pk + chr(b) + "\x1b3" + pk + "2" + chr(b)], "size": (8, 24), "file": None, "exinit": "", "k": -1})
     with ThreadPoolExecutor(NCPU) as ex:
         results = list(ex.map(lambda s: run_stream(ctx, s, safebin), streams + corpus))
+    # a stream that ran out of time beside fifteen others (and whatever else the machine is doing) runs once more on its own with ten
+    # times the time: slow is not stuck
+    for k, (s, r) in enumerate(zip(streams + corpus, results)):
+        if not r["complete"] and r["timed_out"] and not s.get("nullable") and not NULLABLE_LOOP.search(txt(s["cps"])) \
+                and not inconclusive(s["vi"], txt(s["cps"]), r):
+            s2 = dict(s, timeout=min(400, 10 * s.get("timeout", 20 + len(txt(s["cps"]).encode()) // 60)))
+            results[k] = run_stream(ctx, s2, safebin)
+            results[k]["rerun"] = 1
     st = dict(streams=len(streams), ex_streams=sum(1 for s in streams if not s["vi"]), vi_streams=sum(1 for s in streams if s["vi"]),
               set_aside_nullable_loop=len(risky), records=0, incomplete=0, inconclusive_huge_count=0, inconclusive_growth=0, states_validated=0, invariant_violations=0,
               by_origin={})
     for s, r in zip(streams + corpus, results):
         st["records"] += r["nrec"]
+        st["rerun_after_timeout"] = st.get("rerun_after_timeout", 0) + r.get("rerun", 0)
         o = re.sub(r"^[ev][0-9a-f]{2}\.sh", "repo-tests", s["origin"])
         o = o if o.startswith("corpus/") else re.sub(r"/\w+", "", o)
         st["by_origin"][o] = st["by_origin"].get(o, 0) + 1
